@@ -24,10 +24,10 @@ def run(tier, runner):
     r_ci.findings = [f for f in r_ci.findings if 'SmallSet' in f.key]
     r_pair = sets.ss_pair(progs)
     r_pair.require(1, 'members that replace a whole container (swap: positive control)')
-    r_lex.require(4, 'state combinations of the ordering comparison')
-    r_gr.require(3, 'grow call sites')
+    r_lex.require(2, 'state combinations of the ordering comparison')
+    r_gr.require(2, 'grow call sites')
     r_state.require(25, 'writes to the two containers of SmallSet')
-    r_dup.require(3, 'adds to the inline vector')
+    r_dup.require(2, 'adds to the inline vector')
     r_cmp.require(2, 'SmallSet functions using a comparator')
     r_node.require(2, 'insert(node) overloads')
     r_sib.require(8, 'state-dependent const members')
